@@ -10,8 +10,7 @@ namespace WK.Repl
 
 theorem appendExact_hw (s : Store) (m : Manifest) (cs : List Nat) : (s.appendExact m cs).1.hw = s.hw := by
   unfold Store.appendExact
-  repeat' split
-  all_goals rfl
+  cases s.appendDecision m cs <;> rfl
 
 theorem sync_hw_le (s : Store) (m : Manifest) (cs : List Nat) (c : Nat) : s.hw ≤ (s.sync m cs c).1.hw := by
   unfold Store.sync
@@ -31,7 +30,8 @@ theorem load_committed {s : Store} {st : RState} (h : s.load = .ok st) : st.comm
   · cases h
   · split at h
     · cases h; rename_i hp; simp [Store.leo, hp]
-    · split at h
+    · dsimp only at h
+      split at h
       · cases h
       · cases h; rename_i p ps hp _; simp [Store.leo, hp]
 
@@ -52,7 +52,8 @@ theorem replace_hw_le (s : Store) (e : RState) (k : Nat) (ps : List PRec) (c : N
           · rename_i hg
             split at h
             · cases h
-            · split at h
+            · dsimp only at h
+              split at h
               · cases h
               · cases h
                 simp only
@@ -134,5 +135,254 @@ theorem filter_le_of_chain {l : List PRec} (h : ChainP l) (keep : Nat) : ChainP 
       rw [this]; exact h
     · rw [List.filter_cons]; simp only [hp, decide_false, Bool.false_eq_true, if_false]
       exact ih h.tail
+
+/-- what the decision `.append es` guarantees (the guards of appendLeaderExactLocked) -/
+theorem appendDecision_append {s : Store} {m : Manifest} {cs : List Nat} {es : List Ident}
+    (h : s.appendDecision m cs = .append es) :
+    m.validFor m.base cs.length = true ∧ deriveEntries m cs = some es ∧ (lastIdent es).digest = m.digest ∧
+    s.leo = m.base ∧ (m.base > 0 → s.prevMismatch m = false) := by
+  unfold Store.appendDecision at h
+  split at h
+  · cases h
+  · rename_i hv
+    split at h
+    · cases h
+    · rename_i es' hd
+      split at h
+      · cases h
+      · rename_i hdig
+        split at h
+        · cases h
+        · rename_i hb
+          split at h
+          · cases h
+          · rename_i hpm
+            split at h
+            · split at h <;> cases h
+            · split at h
+              · cases h
+              · split at h
+                · cases h
+                · rename_i hl1
+                  split at h
+                  · cases h
+                  · rename_i hl2
+                    cases h
+                    refine ⟨by simpa using hv, hd, by simpa using hdig, ?_, ?_⟩
+                    · have := validFor_last_gt (by simpa using hv : m.validFor m.base cs.length = true)
+                      simp only [not_or, not_and, Nat.not_lt, Nat.not_le] at hl1 hl2 hb
+                      omega
+                    · intro hpos
+                      simp only [not_and] at hpm
+                      have := hpm hpos
+                      simpa using this
+
+theorem appendDecision_already {s : Store} {m : Manifest} {cs : List Nat}
+    (h : s.appendDecision m cs = .already) : m.last ≤ s.leo := by
+  unfold Store.appendDecision at h
+  split at h
+  · cases h
+  · split at h
+    · cases h
+    · repeat' (split at h)
+      all_goals first | (cases h; done) | skip
+      all_goals
+        rename_i hr
+        unfold Store.isExactReplay at hr
+        split at hr
+        · simp only [Bool.and_eq_true, Bool.not_eq_true', decide_eq_false_iff_not, Nat.not_lt] at hr
+          exact hr.1.2
+        · cases hr
+
+theorem leo_cons (s : Store) (p : PRec) : ({ s with props := p :: s.props } : Store).leo = p.m.last := rfl
+
+/-- exact append keeps the chain -/
+theorem appendExact_chain (s : Store) (m : Manifest) (cs : List Nat) (h : ChainP s.props) :
+    ChainP (s.appendExact m cs).1.props := by
+  unfold Store.appendExact
+  cases hd : s.appendDecision m cs with
+  | notWritten => exact h
+  | conflict nf => exact h
+  | already => exact h
+  | append es =>
+    obtain ⟨h1, h2, h3, h4, h5⟩ := appendDecision_append hd
+    have wf : PRec.WF ⟨m, cs, es⟩ := ⟨h1, h2, h3⟩
+    simp only
+    cases hp : s.props with
+    | nil =>
+      refine ChainP.one _ wf ?_
+      simp [Store.leo, hp] at h4; exact h4.symm
+    | cons q rest =>
+      rw [hp] at h
+      have hq : q.m.last = m.base := by simp [Store.leo, hp] at h4; exact h4
+      have hpos : m.base > 0 := by have := validFor_last_gt h.head_wf.1; omega
+      have hm := h5 hpos
+      unfold Store.prevMismatch Store.byLast at hm
+      rw [hp] at hm
+      simp only [List.find?_cons, hq, beq_self_eq_true] at hm
+      simp only [decide_eq_false_iff_not, not_or, Decidable.not_not] at hm
+      exact ChainP.cons _ q rest wf hq.symm hm.1.symm hm.2.symm h
+
+theorem appendExact_leo_ge (s : Store) (m : Manifest) (cs : List Nat) : s.leo ≤ (s.appendExact m cs).1.leo := by
+  unfold Store.appendExact
+  cases hd : s.appendDecision m cs with
+  | notWritten => exact Nat.le_refl _
+  | conflict nf => exact Nat.le_refl _
+  | already => exact Nat.le_refl _
+  | append es =>
+    obtain ⟨h1, _, _, h4, _⟩ := appendDecision_append hd
+    have := validFor_last_gt h1
+    simp only [leo_cons]; omega
+
+/-- a durable / already-durable exact append leaves LEO at or above the manifest's last offset -/
+theorem appendExact_durable_leo (s : Store) (m : Manifest) (cs : List Nat) (h : (s.appendExact m cs).2.isDurable = true) :
+    m.last ≤ (s.appendExact m cs).1.leo := by
+  unfold Store.appendExact at h ⊢
+  cases hd : s.appendDecision m cs with
+  | notWritten => simp [hd, SOut.isDurable] at h
+  | conflict nf => simp [hd, SOut.isDurable] at h
+  | already => simp only; exact appendDecision_already hd
+  | append es => simp only [leo_cons]; exact Nat.le_refl _
+
+theorem validMutation_committed {m : Manifest} {cs : List Nat} {c : Nat} (h : validMutation m cs c = true) : c ≤ m.last := by
+  unfold validMutation at h
+  simp only [Bool.and_eq_true, decide_eq_true_eq] at h
+  exact h.1.2
+
+theorem sync_inv (s : Store) (m : Manifest) (cs : List Nat) (c : Nat) (h : StoreInv s) : StoreInv (s.sync m cs c).1 := by
+  unfold Store.sync
+  split
+  · exact h
+  · rename_i hv
+    have hc := appendExact_chain s m cs h.chain
+    have hh := appendExact_hw s m cs
+    have hl := appendExact_leo_ge s m cs
+    have hd := appendExact_durable_leo s m cs
+    generalize s.appendExact m cs = r at hc hh hl hd
+    obtain ⟨s', out⟩ := r
+    simp only at hc hh hl hd ⊢
+    split
+    · rename_i hcond
+      refine ⟨hc, ?_⟩
+      have := hd hcond.1
+      have := validMutation_committed (by simpa using hv : validMutation m cs c = true)
+      show c ≤ Store.leo { s' with hw := c }
+      have : Store.leo { s' with hw := c } = s'.leo := rfl
+      omega
+    · refine ⟨hc, ?_⟩
+      show s'.hw ≤ s'.leo
+      have := h.hw_le; omega
+
+theorem appendAll_chain (ps : List PRec) : ∀ (s next : Store), ChainP s.props → appendAll s ps = some next → ChainP next.props := by
+  induction ps with
+  | nil => intro s next h e; change some s = some next at e; cases e; exact h
+  | cons p ps ih =>
+    intro s next h e
+    simp only [appendAll] at e
+    have hc := appendExact_chain s p.m p.contents h
+    generalize s.appendExact p.m p.contents = r at hc e
+    obtain ⟨s', out⟩ := r
+    cases out with
+    | durable => exact ih s' next hc e
+    | already => exact ih s' next hc e
+    | notWritten => cases e
+    | conflict nf => cases e
+
+/-- after all appends of a base-chained page LEO is at least the page's last offset -/
+theorem appendAll_leo (ps : List PRec) : ∀ (s next : Store) (base : Nat), base ≤ s.leo → chainBases base ps = true →
+    appendAll s ps = some next → lastBase base ps ≤ next.leo := by
+  induction ps with
+  | nil => intro s next base hb _ e; change some s = some next at e; cases e; simpa [lastBase] using hb
+  | cons p ps ih =>
+    intro s next base hb hcb e
+    simp only [appendAll] at e
+    simp only [chainBases, Bool.and_eq_true, decide_eq_true_eq] at hcb
+    have hd := appendExact_durable_leo s p.m p.contents
+    generalize s.appendExact p.m p.contents = r at hd e
+    obtain ⟨s', out⟩ := r
+    simp only [lastBase]
+    cases out with
+    | durable => exact ih s' next p.m.last (hd rfl) hcb.2 e
+    | already => exact ih s' next p.m.last (hd rfl) hcb.2 e
+    | notWritten => cases e
+    | conflict nf => cases e
+
+theorem filter_leo_of_byLast {l : List PRec} (h : ChainP l) (keep : Nat) (hk : (l.find? (fun p => p.m.last == keep)).isSome) :
+    (Store.mk (l.filter (fun p => p.m.last ≤ keep)) 0).leo = keep := by
+  induction l with
+  | nil => simp at hk
+  | cons p rest ih =>
+    by_cases hp : p.m.last ≤ keep
+    · rw [List.filter_cons]; simp only [hp, decide_true, if_true, Store.leo]
+      -- the head is the newest proposal with last ≤ keep; since one with last = keep exists it is the head
+      rw [List.find?_cons] at hk
+      by_cases he : p.m.last = keep
+      · exact he
+      · have hb : (p.m.last == keep) = false := by simp [he]
+        simp only [hb] at hk
+        rw [Option.isSome_iff_exists] at hk
+        obtain ⟨q, hq⟩ := hk
+        have hmem := List.mem_of_find?_eq_some hq
+        have hql : q.m.last = keep := by have := List.find?_some hq; simpa using this
+        have := h.older_le q hmem
+        have := validFor_last_gt h.head_wf.1
+        omega
+    · rw [List.filter_cons]; simp only [hp, decide_false, Bool.false_eq_true, if_false]
+      rw [List.find?_cons] at hk
+      have he : ¬ p.m.last = keep := by omega
+      have hb : (p.m.last == keep) = false := by simp [he]
+      simp only [hb] at hk
+      exact ih h.tail hk
+
+theorem replace_inv (s : Store) (e : RState) (k : Nat) (ps : List PRec) (c : Nat) (s' : Store)
+    (hinv : StoreInv s) (h : s.replace e k ps c = .ok s') : StoreInv s' := by
+  unfold Store.replace at h
+  split at h
+  · cases h
+  · split at h
+    · cases h
+    · rename_i hcb
+      split at h
+      · cases h
+      · rename_i hcl
+        split at h
+        · cases h
+        · rename_i cur hl
+          split at h
+          · cases h
+          · split at h
+            · cases h
+            · rename_i hbl
+              dsimp only at h
+              split at h
+              · cases h
+              · rename_i next ha
+                cases h
+                have hkc := filter_le_of_chain hinv.chain k
+                refine ⟨appendAll_chain ps _ next hkc ha, ?_⟩
+                have hbase : k ≤ (Store.mk (s.props.filter (fun p => p.m.last ≤ k)) s.hw).leo := by
+                  by_cases hk0 : k = 0
+                  · omega
+                  · have hsome : (s.byLast k).isSome = true := by
+                      simp only [not_and, Option.isNone_iff_eq_none] at hbl
+                      have := hbl (by omega)
+                      cases hb : s.byLast k with
+                      | none => exact absurd hb this
+                      | some _ => rfl
+                    have := filter_leo_of_byLast hinv.chain k hsome
+                    have e2 : (Store.mk (s.props.filter (fun p => p.m.last ≤ k)) s.hw).leo =
+                        (Store.mk (s.props.filter (fun p => p.m.last ≤ k)) 0).leo := rfl
+                    omega
+                have := appendAll_leo ps _ next k hbase (by simpa using hcb) ha
+                simp only [Nat.not_lt] at hcl
+                show c ≤ Store.leo { next with hw := c }
+                have : Store.leo { next with hw := c } = next.leo := rfl
+                omega
+
+def InvRel (a b : Store) : Prop := StoreInv a → StoreInv b
+
+theorem invRel_rel : StoreRel InvRel :=
+  ⟨fun _ h => h, fun _ _ _ h1 h2 h => h2 (h1 h), fun s m cs c h => sync_inv s m cs c h,
+   fun s e k ps c s' h hi => replace_inv s e k ps c s' hi h⟩
 
 end WK.Repl
